@@ -158,3 +158,8 @@ def path_feasible(enc, extra=(), timeout_ms=5000):
     smt = smt.replace("(assert (not true)) ; negated goal: path feasible", "").replace("(assert (not true))", "")
     r, _, _ = run_z3(smt, names, rlimit=0, seed=5, timeout_ms=timeout_ms)
     return r != "unsat"
+
+
+def false_twin():
+    """twin goal 'false': refutable exactly when the hypotheses (path condition included) are satisfiable"""
+    return [Constraint(EQ, P.const(1), "[twin: false]")]
